@@ -496,7 +496,7 @@ func (w *WAL) awaitRotationLocked() {
 		// needs to complete first. Wait for it to complete.
 		w.writeMu.Unlock()
 		verifhook.At("writeMu.unlocked", w.dir)
-		verifhook.At("awaitRotate.wait", w.dir)
+		verifhook.AtChan("awaitRotate.wait", w.dir, awaitCh)
 		<-awaitCh
 		verifhook.At("writeMu.lock", w.dir)
 		w.writeMu.Lock()
